@@ -31,7 +31,7 @@ def element_records():
     for z in range(1, 119):
         rec = {'z': z, 'sym': '', 'by_sym': 0, 'by_num': '', 'dist': [], 'mass': [], 'mdl': 0, 'pack_ref': pack_ref[z] if z < len(pack_ref) else -999,
                'unpack_ref': unpack_ref[z] if z < len(unpack_ref) else -999, 'unpack_sym': unpack_sym[z] if z < len(unpack_sym) else '',
-               'mass_nat': 0, 'mass_iso': [], 'qz': 0, 'qsym': 0, 'dz': 0, 'dsym': 0, 'qname': '', 'dname': '', 'rules': 0, 'nrules': -1}
+               'mass_nat': 0, 'mass_iso': [], 'qz': 0, 'qsym': 0, 'dz': 0, 'dsym': 0, 'qname': '', 'dname': '', 'rules': 0, 'nrules': -1, 'qch': [], 'ech': []}
         try:
             cls = Element.from_atomic_number(z)
             e = cls()
@@ -56,6 +56,20 @@ def element_records():
                 rec['qname'] = QueryElement.from_atomic_number(z)().atomic_symbol
             except Exception:
                 pass
+            for ch in range(-4, 5):      # the whole charge range on the element and on the query variant (constructor and setter)
+                try:
+                    q = QueryElement.from_atomic_number(z)(charge=ch)
+                    q2 = QueryElement.from_atomic_number(z)()
+                    q2.charge = ch
+                    if q.charge == ch and q2.charge == ch:
+                        rec['qch'].append(ch)
+                except Exception:
+                    pass
+                try:
+                    if cls(charge=ch).charge == ch:
+                        rec['ech'].append(ch)
+                except Exception:
+                    pass
             try:
                 rec['dz'] = DynamicElement.from_atomic_number(z)(None).atomic_number
                 rec['dsym'] = DynamicElement.from_symbol(e.atomic_symbol)(None).atomic_number
